@@ -169,6 +169,15 @@ func tinyModels() map[string][]byte {
 			mk(fmt.Sprintf("init-%s-%s", dt, enc), g)
 		}
 	}
+	// rank-0 and rank-1 initializers of every type (scalars take their own paths in decoders)
+	for _, dt := range storable {
+		for _, sh := range [][]int{{}, {3}} {
+			t := patternFill(dt, sh, 2)
+			g0 := &onnx.GraphProto{Name: "g", Initializer: []*onnx.TensorProto{hx.TensorProto("w", t, "raw"), hx.TensorProto("v", t, "typed")},
+				Output: []*onnx.ValueInfoProto{hx.ValueInfoNoShape("w"), hx.ValueInfoNoShape("v")}}
+			mk(fmt.Sprintf("init-%s-rank%d", dt, len(sh)), g0)
+		}
+	}
 	g := &onnx.GraphProto{Name: "g", Input: []*onnx.ValueInfoProto{hx.ValueInfo("x", ref.F32, []hx.DimSpec{{Param: "N"}, {Fixed: 2}})},
 		Initializer: []*onnx.TensorProto{hx.TensorProto("w", w, "raw"), hx.TensorProto("shape", ref.I64Vec(0, -1), "raw")},
 		Node: []*onnx.NodeProto{hx.Node("Gemm", []string{"x", "w"}, []string{"h"}, []hx.Attr{hx.AFloat("alpha", 0.5), hx.AInt("transB", 1)}), hx.Node("Relu", []string{"h"}, []string{"r"}, nil),
@@ -204,7 +213,7 @@ func checkC18(c *hx.Checker) {
 	if err != nil {
 		hx.HarnessError("cannot read ndm.onnx: %v", err)
 	}
-	c.Rule = "seeds: mlp.onnx, scaler.onnx, gru.onnx, mnist-8-opset13.onnx, the zip sample, 25 generated tiny models (every initializer type x encoding, mixed attribute kinds, LSTM, Conv) and ndm.onnx; " +
+	c.Rule = "seeds: mlp.onnx, scaler.onnx, gru.onnx, mnist-8-opset13.onnx, the zip sample, 47 generated tiny models (every initializer type x encoding at rank 2, every type at rank 0 and 1, mixed attribute kinds, LSTM, Conv) and ndm.onnx; " +
 		"byte faults: EVERY truncation offset and EVERY single-byte substitution by {all 256 values for seeds < 700 B (thorough: < 2 KiB); 0x00,0x01,0x7f,0x80,0xff,b^1,b^0x80 otherwise}; ndm.onnx: 4096 evenly spread truncation offsets + substitutions at 2048 offsets; " +
 		"structural faults on the decoded proto of every seed: each initializer dims entry -> {-1,0,1,d-1,d+1,2^31,2^62}, data_type -> 0..22,99, raw payload +-1 byte / empty, names emptied / duplicated, node inputs/outputs shortened, value-info dims perturbed, graph removed; " +
 		"opset imports: every version in {-1,0..25,2^31,2^63-1} alone, with an ai.onnx.ml import before/after, duplicated, and no import at all; operator types: each registered name and 120 unregistered names placed first / middle / last in a 3-node graph. " +
